@@ -290,6 +290,8 @@ def run_remote(sc, timeout=30):
                 world.connect(ents[c["src"]][c["seid"]], ents[c["dst"]][c["deid"]], (scorr.ATTRS[c["sattr"]], scorr.ATTRS[c["dattr"]]), **kw)
             for i, s in enumerate(sims):
                 if s.get("init_ev") is not None:
+                    if scorr.earlier_initev_call(sc, i) is not None:
+                        world.set_initial_event(f"S{i}", scorr.earlier_initev_call(sc, i))
                     world.set_initial_event(f"S{i}", s["init_ev"])
             try:
                 world.run(until=sc["until"], print_progress=False, lazy_stepping=sc["lazy"])
